@@ -188,6 +188,11 @@ def _strategy(draw):
         # restarts happen also in these dilute systems
         spec["fail_pattern"] = [draw(st.integers(0, 2)) == 0 for _ in range(draw(st.integers(1, 20)))]
         opts["nrewind"] = draw(st.integers(2, 3)) if mixed else draw(st.integers(1, 4))
+        if draw(st.booleans()):
+            # few attempts per round (-mi): a molecule whose attempts are used up is started over until it is built
+            opts["maxiter"] = draw(st.sampled_from([0, 1, 2]))
+            if draw(st.booleans()):
+                spec["fail_pattern"] = [True] * draw(st.integers(3, 12)) + spec["fail_pattern"]
     if draw(st.integers(0, 3)) == 0:
         # [ molecules ] lines with the count 0 (a component switched off for this run), anywhere in the list
         for _ in range(draw(st.integers(1, 2))):
